@@ -109,18 +109,26 @@ func AppendHazard(root reflect.Value) error {
 // the variable must afterwards hold exactly the second message — what decoding it into a fresh variable gives.
 func ReuseReceiver(e *Entry, enc1, enc2 []byte) (err error) {
 	p := reflect.New(e.Type)
-	df, ok := p.Interface().(types.DecoderFrom)
-	if !ok {
-		return nil
+	// decode b into the value q points to: through the codec's read function where it takes a target object (rhp v4),
+	// else through DecodeFrom
+	into := func(q reflect.Value, b []byte) (ok, applicable bool) {
+		if e.DecodeInto != nil {
+			return e.DecodeInto(b, q) == nil, true
+		}
+		df, isDF := q.Interface().(types.DecoderFrom)
+		if !isDF {
+			return false, false
+		}
+		d := types.NewBufDecoder(b)
+		df.DecodeFrom(d)
+		return d.Err() == nil, true
 	}
 	defer func() {
 		if r := recover(); r != nil {
 			err = nil // decoder / encoder panics are judged elsewhere
 		}
 	}()
-	d := types.NewBufDecoder(enc1)
-	df.DecodeFrom(d)
-	if d.Err() != nil {
+	if ok, applicable := into(p, enc1); !applicable || !ok {
 		return nil
 	}
 	held := reflect.New(e.Type).Elem()
@@ -129,15 +137,12 @@ func ReuseReceiver(e *Entry, enc1, enc2 []byte) (err error) {
 	if eerr != nil {
 		return nil
 	}
-	d2 := types.NewBufDecoder(enc2)
-	df.DecodeFrom(d2)
+	ok2, _ := into(p, enc2)
 	// (a) the variable now holds the second message, exactly as a fresh variable would (nothing of the first message
 	// shows through: no stale length, no stale tail, no field left over)
-	if d2.Err() == nil {
+	if ok2 {
 		fresh := reflect.New(e.Type)
-		fd := types.NewBufDecoder(enc2)
-		fresh.Interface().(types.DecoderFrom).DecodeFrom(fd)
-		if fd.Err() == nil {
+		if okf, _ := into(fresh, enc2); okf {
 			got, gerr := e.Encode(p.Elem())
 			want, werr := e.Encode(fresh.Elem())
 			if gerr == nil && werr == nil && string(got) != string(want) {
